@@ -56,6 +56,10 @@ type SCCP struct {
 	val         map[ssa.Value]lat
 	execBlock   map[*ssa.BasicBlock]bool
 	execEdge    map[[2]*ssa.BasicBlock]bool
+	// interprocedural: P enables descending into in-repo callees; sub holds the callee runs of executable calls
+	P     *Prog
+	sub   map[*ssa.Call]*SCCP
+	depth int
 }
 
 func pathKeyOf(addr ssa.Value) string {
@@ -239,8 +243,59 @@ func (s *SCCP) eval(v ssa.Value) lat {
 		return s.get(x.X)
 	case *ssa.Call:
 		return s.call(x)
+	case *ssa.Extract:
+		// a component of a multi-result call into the repository, evaluated under the same assumptions
+		if call, ok := x.Tuple.(*ssa.Call); ok {
+			if sub := s.subRun(call); sub != nil {
+				return sub.resultLat(x.Index)
+			}
+		}
 	}
 	return latTop
+}
+
+// subRun evaluates an in-repo callee under the caller's field assumptions with the constant arguments bound
+// (context-sensitive, depth-bounded). Helpers split off from the analysed function are thereby "inlined".
+func (s *SCCP) subRun(c *ssa.Call) *SCCP {
+	g := c.Call.StaticCallee()
+	if s.P == nil || g == nil || !s.P.InRepo(g) || len(g.Blocks) == 0 || s.depth >= 3 {
+		return nil
+	}
+	if s.sub == nil {
+		s.sub = map[*ssa.Call]*SCCP{}
+	}
+	av := map[ssa.Value]constant.Value{}
+	args := c.Call.Args
+	if len(args) == len(g.Params) {
+		for k, a := range args {
+			if l := s.get(a); l.kind == 1 && !l.isNil {
+				av[g.Params[k]] = l.c
+			}
+		}
+	}
+	sub := &SCCP{F: g, P: s.P, AssumeField: s.AssumeField, AssumeLen: s.AssumeLen, AssumeValue: av, depth: s.depth + 1}
+	sub.Run()
+	s.sub[c] = sub
+	return sub
+}
+
+// resultLat: meet of result #idx over the executable returns.
+func (s *SCCP) resultLat(idx int) lat {
+	r := lat{}
+	for _, ret := range s.ExecReturns() {
+		if idx >= len(ret.Results) {
+			return latTop
+		}
+		v := s.get(resultValue(ret, idx))
+		if v.kind == 0 {
+			continue
+		}
+		r = meet(r, v)
+	}
+	if r.kind == 0 {
+		return latTop
+	}
+	return r
 }
 
 func isNum(c constant.Value) bool { return c.Kind() == constant.Int || c.Kind() == constant.Float }
@@ -254,6 +309,12 @@ func (s *SCCP) call(c *ssa.Call) lat {
 				return latConst(constant.MakeInt64(k))
 			}
 		}
+	}
+	if sub := s.subRun(c); sub != nil {
+		if c.Call.Signature().Results().Len() == 1 {
+			return sub.resultLat(0)
+		}
+		return latTop
 	}
 	allConst := true
 	var cs []constant.Value
@@ -442,6 +503,12 @@ func (s *SCCP) StoresTo(fv *types.Var) []sccpStore {
 			out = append(out, sccpStore{st, s.get(st.Val)})
 		}
 	})
+	// stores made by in-repo callees of executable call sites (helpers split off from the analysed function)
+	for call, sub := range s.sub {
+		if s.execBlock[call.Block()] {
+			out = append(out, sub.StoresTo(fv)...)
+		}
+	}
 	return out
 }
 
